@@ -463,7 +463,57 @@ func (f *Frame) callFunction(st *State, in ssa.Instruction, fn *ssa.Function, bi
 		// method wrappers / bound-method closures of external types
 		return f.inline(st, in, fn, bindings, args)
 	}
+	if !vc.p.inModule(fn) && valueOnlySig(fn.Signature) {
+		// an external function that receives values only (numbers, booleans, strings, structs of those) cannot reach
+		// the module's objects: no effect on tracked state, result unconstrained (listed in the evidence)
+		name := shortFuncName(fn)
+		vc.note("call to external %s (no contract) takes values only: treated as effect-free, result unconstrained", name)
+		vc.trustedUsed["external function without contract, value arguments only (effect-free, result unconstrained): "+name] = true
+		var vals []Value
+		for i := 0; i < fn.Signature.Results().Len(); i++ {
+			t := fn.Signature.Results().At(i).Type()
+			v := vc.freshConst("r."+name, vc.env.SortOf(t))
+			if !isStruct(t) {
+				f.factsOf(st, v, t)
+			}
+			vals = append(vals, Value{T: v})
+		}
+		return st, vals
+	}
 	return f.havocCall(st, in, fn.Signature, shortFuncName(fn))
+}
+
+// valueOnlySig: every parameter (and the receiver) is a number, boolean, string, or a struct/array of those.
+func valueOnlySig(sig *types.Signature) bool {
+	var ok func(t types.Type, depth int) bool
+	ok = func(t types.Type, depth int) bool {
+		if depth > 4 {
+			return false
+		}
+		switch u := t.Underlying().(type) {
+		case *types.Basic:
+			return u.Kind() != types.UnsafePointer
+		case *types.Struct:
+			for i := 0; i < u.NumFields(); i++ {
+				if !ok(u.Field(i).Type(), depth+1) {
+					return false
+				}
+			}
+			return true
+		case *types.Array:
+			return ok(u.Elem(), depth+1)
+		}
+		return false
+	}
+	if sig.Recv() != nil && !ok(sig.Recv().Type(), 0) {
+		return false
+	}
+	for i := 0; i < sig.Params().Len(); i++ {
+		if !ok(sig.Params().At(i).Type(), 0) {
+			return false
+		}
+	}
+	return true
 }
 
 func (f *Frame) inline(st *State, in ssa.Instruction, fn *ssa.Function, bindings []Value, args []Value) (*State, []Value) {
